@@ -191,6 +191,7 @@ def run(ctx):
     recs = sc.run_games(ctx, games, limit=10 if ctx.quick else 30, tag="c01")
     sc.correspondence(ctx, recs, "cmp_probs", "c01")
     sc.padding_check(ctx, recs, ("probs",), 40 if ctx.quick else 400, "c01")
+    sc.loglevel_check(ctx, recs, ("probs",), 25 if ctx.quick else 250, "c01")
     check_values(ctx, recs)
     exact_vs_float(ctx, recs)
     float_trace_monotone(ctx, recs)
